@@ -558,6 +558,33 @@ fn c14_tlsdesc_call_becomes_nop() {
     }
 }
 
+// The TLS descriptor sequence is two relocated instructions,
+//     lea  x@tlsdesc(%rip), %rax      R_X86_64_GOTPC32_TLSDESC
+//     call *x@tlscall(%rax)           R_X86_64_TLSDESC_CALL
+// and leaves x's TP offset in %rax only if BOTH are rewritten or NEITHER is: a rewritten lea with
+// the call left in place calls through a TP offset, an untouched lea followed by a removed call
+// leaves the descriptor's address in %rax.  The callers (apply_relocation, relaxation scanning)
+// apply a relaxation exactly when `args.relax || relaxation.is_mandatory()`, so for every symbol
+// class, output kind and --relax/--no-relax the two decisions must agree.
+#[kani::proof]
+#[kani::unwind(25)]
+fn c14_tlsdesc_lea_and_call_are_rewritten_together() {
+    let mut b0: [u8; W] = kani::any();
+    let f: usize = 6; // lea's disp32 at 6..10, call at 10..12
+    // psABI 11.1: REX.W lea (48 8d /r or 4c 8d /r with modrm = [rip+disp32])
+    kani::assume((b0[f - 3] == 0x48 || b0[f - 3] == 0x4c) && b0[f - 2] == 0x8d && b0[f - 1] & 0xc7 == 0x05);
+    b0[10] = 0xff;
+    b0[11] = 0x10;
+    let flags = any_flags();
+    let okind = any_output_kind();
+    let relax_enabled: bool = kani::any();
+    let lea = relax(object::elf::R_X86_64_GOTPC32_TLSDESC, &b0, f, flags, okind, shf::EXECINSTR);
+    let call = relax(object::elf::R_X86_64_TLSDESC_CALL, &b0, 10, flags, okind, shf::EXECINSTR);
+    let lea_applied = match &lea { Some(r) => relax_enabled || r.is_mandatory(), None => false };
+    let call_applied = match &call { Some(r) => relax_enabled || r.is_mandatory(), None => false };
+    assert!(lea_applied == call_applied, "the TLS descriptor lea and its call are not rewritten together");
+}
+
 #[kani::proof]
 fn c14_next_modifier_skips_exactly_the_paired_call() {
     // every kind whose replacement swallows the following __tls_get_addr call must skip its
